@@ -88,3 +88,51 @@ func Run(c *vh.Ctx, cfg Config) {
 	}
 	c.Finish(level, cfg.Rule, append(append([]string{}, CommonAssumptions...), cfg.Assumptions...))
 }
+
+type DeployConfig struct {
+	Stream            string
+	NQuick, NThorough int
+	Profile           func(r *rand.Rand) scen.DeployProfile
+	Options           func(p scen.DeployProfile, r *rand.Rand) driver.Options
+	Monitors          func() []scen.Monitor
+	NonTrivialCounter string
+	After             func(c *vh.Ctx, e *scen.Env, g *scen.DeployRand)
+}
+
+// RunDeployStream executes ObjectDeployment scenarios.
+func RunDeployStream(c *vh.Ctx, cfg DeployConfig) {
+	n := c.N(cfg.NQuick, cfg.NThorough)
+	vh.Parallel(n, func(i int) {
+		if c.Skip(cfg.Stream, i) {
+			return
+		}
+		r := c.Rand(cfg.Stream, i)
+		prof := cfg.Profile(r)
+		opts := driver.Options{}
+		if cfg.Options != nil {
+			opts = cfg.Options(prof, r)
+		}
+		e, err := scen.NewEnv(r, opts, cfg.Monitors()...)
+		if err != nil {
+			panic(err)
+		}
+		g := scen.NewDeploy(e, prof)
+		g.Run()
+		if cfg.After != nil {
+			cfg.After(c, e, g)
+		}
+		c.Eval()
+		for _, v := range e.Viol {
+			c.Violation(v.Sig, v.Msg, map[string]any{"index": i, "stream": cfg.Stream, "profile": prof, "steps": e.Log, "trace": e.TraceTail(600)})
+		}
+		for k, v := range e.Counts {
+			c.Count(k, v)
+		}
+		if cfg.NonTrivialCounter == "" || e.Counts[cfg.NonTrivialCounter] > 0 {
+			c.Distinct(strings.Join(e.Log, "\n"))
+		}
+		if i < 1 {
+			c.Sample(map[string]any{"stream": cfg.Stream, "profile": prof, "steps": e.Log})
+		}
+	})
+}
